@@ -813,6 +813,31 @@ impl<K: Hash + Eq, V, RH: BuildHasher, FH: BuildHasher, GH: BuildHasher>
         builder.finalize()
     }
 
+
+    /// Verification hook (feature `verif-hooks`): read-only view of the recent list.
+    #[cfg(feature = "verif-hooks")]
+    pub fn verif_recent(&self) -> &RawLRU<K, V, DefaultEvictCallback, RH> {
+        &self.recent
+    }
+
+    /// Verification hook (feature `verif-hooks`): read-only view of the frequent list.
+    #[cfg(feature = "verif-hooks")]
+    pub fn verif_frequent(&self) -> &RawLRU<K, V, DefaultEvictCallback, FH> {
+        &self.frequent
+    }
+
+    /// Verification hook (feature `verif-hooks`): read-only view of the ghost list.
+    #[cfg(feature = "verif-hooks")]
+    pub fn verif_ghost(&self) -> &RawLRU<K, V, DefaultEvictCallback, GH> {
+        &self.ghost
+    }
+
+    /// Verification hook (feature `verif-hooks`): the recent-queue quota.
+    #[cfg(feature = "verif-hooks")]
+    pub fn verif_recent_quota(&self) -> usize {
+        self.recent_size
+    }
+
     /// Returns the number of key-value pairs that are currently in the the recent LRU.
     pub fn recent_len(&self) -> usize {
         self.recent.len()
